@@ -137,6 +137,8 @@ class Check:
         if not traces:
             return {}
         name = name or f"{self.pid}-{source or 'traces'}"
+        for t in traces:
+            t["owner"] = self.pid
         verdicts, r = tlcio.monitor(module, cfg, name, traces, workers=workers, timeout=timeout)
         self.states += r.distinct
         self.transitions += r.generated
